@@ -60,6 +60,13 @@ deriving Repr, DecidableEq, Inhabited
 structure GDirective where
   file : String
   name : String
+  /-- the class the body sits on -/
+  cls : String
+  /-- the body itself carries `@action_method` -/
+  decorated : Bool
+  /-- the public configurator methods through which the body is reached (`Class.method`, sorted), each with
+  whether it carries `@action_method`; empty when the translator found none -/
+  entries : List (String × Bool)
   params : List String
   intros : List GIntro
   keys : List GKey
@@ -122,6 +129,11 @@ deriving Repr, DecidableEq, Inhabited
 structure SDirective where
   file : String
   name : String
+  /-- the public directives (`Class.method`) a configuration statement calls to reach this body: each must be
+  wrapped by `@action_method`, whose outermost wrapper records the calling statement as `action_info` -/
+  entries : List String
+  /-- pyramid's own call sites of the body that are not configuration statements (exempt) -/
+  internal : List String := []
   /-- the documented category of each introspectable variable (introspector.rst), when the documentation
   names one; used by the dynamic harness (`docCategory ≠ category` is finding F-C20c) -/
   docCategory : List (String × String) := []
@@ -196,8 +208,15 @@ def actOk (d : GDirective) (sd : SDirective) (g s : GAct) : Bool :=
 
 def actsOk (d : GDirective) (s : SDirective) : Bool := all2 (actOk d s) d.acts s.acts
 
+/-- every public way into the body is a specified one and is wrapped by `@action_method` (fix 4633e93 for
+`add_permission`, `add_cache_buster`, `add_tween`; finding F-C20d before it) -/
+def entriesOk (d : GDirective) (s : SDirective) : Bool :=
+  !s.entries.isEmpty
+    && s.entries.all (fun e => d.entries.contains (e, true))
+    && d.entries.all (fun e => (s.entries.contains e.1 && e.2) || s.internal.contains e.1)
+
 def dirOk (d : GDirective) (s : SDirective) : Bool :=
-  d.file == s.file && d.name == s.name && d.unknown.isEmpty && introsOk d s && keysOk d s && relsOk d s && actsOk d s
+  d.file == s.file && d.name == s.name && d.unknown.isEmpty && entriesOk d s && introsOk d s && keysOk d s && relsOk d s && actsOk d s
 
 /-- every introspectable variable built by the directive reaches some action's `introspectables=` -/
 def allReach (d : GDirective) : Bool :=
